@@ -167,3 +167,6 @@ f1!(f1_fast_m16_16k, 16, 16432, 3, cut);
 // END = 68 KiB (thorough): chunk sizes beyond a page-rounding step, every base residue mod 4096 many times over
 f1!(f1_fast_m1_68k, 1, 69680, 3, cut);
 f1!(f1_fast_m16_68k, 16, 69680, 3, cut);
+// A-null at 16 KiB (thorough): more halving attempts before the minimum chunk size is reached
+f1!(f1_alloc_m1_16k, 1, 16432, 10, null);
+f1!(f1_alloc_m16_16k, 16, 16432, 10, null);
